@@ -303,7 +303,7 @@ def generate(rng, idx, tier, variant):
     if rng.random() < 0.012 and variant in ('container', 'labels'):
         n = 300  # well past any small-number special case (e.g. CPython's cached small integers)
     stype = rng.choice(LINKER_SPANS if (fam == 'linker' and not one_sub) else spans.TYPES)
-    spec = {'family': fam, 'span': {'type': stype, 'n': n, 'origin': rng.choice([0, 1, 3, 7]), 'step': rng.choice([2, 2, 3])}, 'strict': rng.random() < 0.25}
+    spec = {'family': fam, 'span': {'type': stype, 'n': n, 'origin': rng.choice([0, 1, 3, 7, -1, -2, -3]), 'step': rng.choice([2, 2, 3])}, 'strict': rng.random() < 0.25}
     if stype in spans.ORDERABLE and variant in ('labels', 'container', 'copies') and rng.random() < 0.25:
         spec['span']['order'] = rng.choice(['desc', 'shuffle', 'swap', 'swap'])  # labels that are not in sorted order
     g = {'base': 0, 'names': {0: []}, 'np': 1}
@@ -362,6 +362,10 @@ def generate(rng, idx, tier, variant):
             dt = rng.choice(['float', 'float', 'int', 'bool', 'str'])
             ops.append({'op': 'add_variable', 'obj': 0, 'name': f'V{i}', 'value': _good_vspec(rng, g, dt), 'dtype': rng.choice([None, dt])})
             g['names'][0].append((f'V{i}', dt))
+        if rng.random() < 0.1:
+            # an unsigned-integer series (its own dtype kind; integer-valued like any other)
+            ops.append({'op': 'add_variable', 'obj': 0, 'name': 'U0', 'value': _good_vspec(rng, g, 'int'), 'dtype': 'uint'})
+            g['names'][0].append(('U0', 'int'))
         if variant == 'reindex' and rng.random() < 0.08:
             # a variable whose name is also the name of a container attribute / property: reachable by key only
             rn = rng.choice(RESERVED)
